@@ -52,6 +52,8 @@ def case_str(sp):
         s += ";RP=" + ".".join(str(i) for i in sp["rp"])
     if sp.get("recs") is not None:
         s += ";RS=" + ".".join(str(i) for i in sp["recs"])
+    if sp.get("grp") is not None:
+        s += ";GR=" + ".".join(str(i) for i in sp["grp"])
     if sp.get("algs") is not None:
         s += ";AL=" + "+".join(sp["algs"])
     return s
@@ -67,6 +69,8 @@ def parse_case(s):
         sp["rp"] = tuple(int(c) for c in d["RP"].split("."))
     if "RS" in d:
         sp["recs"] = tuple(int(c) for c in d["RS"].split("."))
+    if "GR" in d:
+        sp["grp"] = tuple(int(c) for c in d["GR"].split("."))
     if "AL" in d:
         sp["algs"] = tuple(d["AL"].split("+"))
     return sp
@@ -269,7 +273,17 @@ def build_input(sp):
     xmls = [G.obs_xml(o, v, k, variance=(k % 3 == 2)) for k, ((o, _), v) in enumerate(zip(recs, vals))]
     rp = sp.get("rp") or tuple(range(len(xmls)))
     pp = sp.get("pp") or tuple(range(len(ids)))
-    return G.make_xml([ids[i] for i in pp], approx_coords(sp), st, [xmls[i] for i in rp]), recs, vals, rp
+    ordered = [xmls[i] for i in rp]
+    if sp.get("grp"):
+        # consecutive records merged into one <obs> cluster (sizes sp["grp"]): each record keeps its own
+        # covariance piece (<cov-mat> / <stdev> / <variance>), the cluster matrix is their block diagonal
+        merged = []; k = 0
+        for size in sp["grp"]:
+            body = "".join(x[len("<obs>\n"):-len("</obs>\n")] for x in ordered[k:k + size])
+            merged.append("<obs>\n" + body + "</obs>\n"); k += size
+        assert k == len(ordered)
+        ordered = merged
+    return G.make_xml([ids[i] for i in pp], approx_coords(sp), st, ordered), recs, vals, rp
 
 
 # ----------------------------------------------------------------------- running
@@ -724,8 +738,10 @@ def evaluate_order(job):
     ref = {}
     nrun = 0
     varies = 0
-    for (pp, rp) in orders:
+    for od in orders:
+        pp, rp = od[0], od[1]
         s2 = dict(sp, pp=pp, rp=rp)
+        if len(od) > 2 and od[2] is not None: s2["grp"] = od[2]
         xml = build_input(s2)[0]
         with open(base + ".xml", "w") as f:
             f.write(xml)
@@ -766,7 +782,7 @@ def evaluate_order(job):
             if res["order"] != ref[a][1]:
                 varies += 1
             if diffs:
-                out["viol"].append(("C19|order-dependent|T=%s|br=n/a|%s|%s|%s|%s" % (tsig, cl["feat"], cl["cls"], sp["mode"], a),
+                out["viol"].append(("C19|%s|T=%s|br=n/a|%s|%s|%s|%s" % ("grouping-dependent" if s2.get("grp") else "order-dependent", tsig, cl["feat"], cl["cls"], sp["mode"], a),
                                     "%s vs %s :: %s" % (ref[a][2], case_str(s2), "; ".join(diffs[:6]))))
     out["counters"]["g3_runs"] = nrun
     out["counters"]["orders"] = len(orders)
